@@ -937,7 +937,7 @@ func genTask(r *prng.R, pool *docPool, idx int, theme string) TaskProg {
 	if d.Format == "ts" {
 		t.Plan.Medium = r.Pick("plain", "seekable", "bufio")
 	}
-	if r.Bool(0.12) && theme != "samefile" && theme != "missing" { // a list built in code instead of read from a document
+	if (r.Bool(0.12) || theme == "writers" && r.Bool(0.5)) && theme != "samefile" && theme != "missing" { // a list built in code instead of read from a document (half of a writer storm: richly attributed lists)
 		l := corpus.GenList(r, 300000+idx)
 		if l.Meta != nil && r.Bool(0.7) {
 			l.Meta.Language = r.Pick("de", "pt", "de-AT", "pt-BR", "xx", "de-CH")
